@@ -30,6 +30,7 @@ typedef struct cell {
 	int rl;        /* C11: index+1 into RELAYS[], 0 = relay class from `up` */
 	int v6;        /* IPv6 transport between client and server */
 	int pre;       /* slots taken by other parties before the client starts: the client's userid */
+	int inj;       /* C02: the deviations are tun arrivals timed against the client's own datagrams (clean path otherwise) */
 } cell;
 
 static const char *QT[8] = { "NULL", "PRIVATE", "TXT", "SRV", "MX", "CNAME", "A", "" };
@@ -69,6 +70,7 @@ static void cell_desc(const cell *c, char *b, size_t n)
 	int k = snprintf(b, n, "T=%s O=%s up=%d m=%d M=%d lazy=%d raw=%d lat=%d/%d warm=%d wl=%d two=%d%s", c->qt == 7 ? "auto" : QT[c->qt], c->de ? DE[c->de] : "auto",
 		 c->up, c->fs, c->ml, c->lazy, c->raw, LAT[c->lat][0], LAT[c->lat][1], c->warm, c->wl, c->two, c->v6 ? " ipv6" : "");
 	if (c->pre && k < (int)n) k += snprintf(b + k, n - k, " slot=%d", c->pre);
+	if (c->inj && k < (int)n) k += snprintf(b + k, n - k, " timed-tun-arrivals");
 	if (c->rl && k < (int)n) {
 		static const char *CS[] = { "keep", "lower", "upper", "random" }, *E8[] = { "clean", "strip", "reject" }, *PU[] = { "keep", "+->-", "_->-" };
 		const ns_relay *r = &RELAYS[c->rl - 1];
@@ -264,6 +266,43 @@ static void offer_workload(int wl, int64_t t0)
 		int tun = w->side == 0 ? ns_srv_tun : ns_cli_tun[w->side];
 		vw_tun_offer_at(tun, t0 + (int64_t)w->at_ms * 1000, p, n, i + 1);
 	}
+}
+
+/* C02, timing of tun arrivals: the path stays clean; the one deviation of an execution is a pair of small packets arriving on
+ * the client's and on the server's tun device 1, 4 or 12 ms (or not at all on one side) after some datagram the client sends.
+ * Three queries can then be in flight at once (keep-alive ping, data query, and the held one the server answers), which a
+ * workload with fixed times reaches only by luck.  Every accepted packet must still arrive once and in order. */
+#define NINJ 16
+static const int INJ_MS[4] = { -1, 1, 4, 12 };
+static int64_t inj_until; static int inj_done; static char inj_desc[200];
+static int inject_fate(int d, int to_server)
+{
+	(void)d;
+	if (!to_server || inj_done || W.now > inj_until || XC.budget < 1) return 0;
+	int costs[NINJ]; costs[0] = 0; for (int i = 1; i < NINJ; i++) costs[i] = 1;
+	int alt = xp_choose(NINJ, costs);
+	if (alt > 0) {
+		unsigned char p[200];
+		int dc = INJ_MS[alt & 3], ds = INJ_MS[alt >> 2];
+		inj_done = 1;
+		if (dc >= 0) { int n = ns_mkpkt(p, 80, A_SRV, 900, 0); WL_MUST[900] = 1; vw_tun_offer_at(ns_cli_tun[1], W.now + dc * 1000, p, n, 900); }
+		if (ds >= 0) { int n = ns_mkpkt(p, 70, WDST(A_CLA), 901, 0); WL_MUST[901] = 1; vw_tun_offer_at(ns_srv_tun, W.now + ds * 1000, p, n, 901); }
+		snprintf(inj_desc, sizeof inj_desc, " + packets arriving on the client's tun %d ms and on the server's tun %d ms after the client's datagram at t=%.3f (-1: none)", dc, ds, W.now / 1e6);
+		if (ns_trace) printf("    tun arrivals: client +%d ms, server +%d ms\n", dc, ds);
+	}
+	return 0;
+}
+static void cells_inject(void)
+{
+	static const int QTS[] = { 0, 2, 5 };
+	for (unsigned q = 0; q < 3; q++) for (int lazy = 1; lazy >= 0; lazy--) for (int lat = 0; lat <= 2; lat += 2) {
+		cell c; memset(&c, 0, sizeof c);
+		c.qt = QTS[q]; c.ml = 255; c.lazy = lazy; c.lat = lat; c.wl = 3; c.inj = 1;
+		if (c.qt == 5) c.fs = 50;
+		add_cell(c);
+	}
+	/* raw UDP mode */
+	{ cell c; memset(&c, 0, sizeof c); c.ml = 255; c.lazy = 1; c.raw = 1; c.lat = 2; c.wl = 3; c.inj = 1; add_cell(c); }
 }
 
 /* C11: packets cut to sit on the fragment boundaries of the settings the handshake settled on: compressed length k * capacity - 1,
@@ -743,6 +782,7 @@ static void run_cell(int job)
 	if (!strcmp(PROP, "C11") && !c->two) xp_count(K_SWEEP, offer_boundary_sweep(WLS[c->wl].n + 1, t0 + 9000000));
 	XC.budget = BUDGET;
 	ns_choices_on = BUDGET > 0;
+	if (c->inj) { ns_choices_on = 0; ns_extra_fate = inject_fate; inj_done = 0; inj_until = t0 + (int64_t)(HORIZON_S - 5) * 1000000; }
 	if (want_c16) ns_fate_mask = 0;          /* the only deviation is the re-delivery */
 	XC.ncp = 0;
 	run_to_horizon(t0 + (int64_t)HORIZON_S * 1000000, 60000);
@@ -753,7 +793,8 @@ static void run_cell(int job)
 		for (int k = 0; k < i; k++) if (ns_wr[k].proc == ns_wr[i].proc && ns_wr[k].matched == ns_wr[i].matched && ns_wr[i].matched >= 0) { rep++; break; }
 	}
 	xp_count(K_DELIV_UP, up); xp_count(K_DELIV_DOWN, down); xp_count(K_REPEATS, rep);
-	if ((!strcmp(PROP, "C02") || !strcmp(PROP, "C11")) && XC.npath == 0) end_of_run_c02_clean(c, desc);
+	if (c->inj && inj_done) { size_t dl = strlen(desc); snprintf(desc + dl, sizeof desc - dl, "%s", inj_desc); }
+	if ((!strcmp(PROP, "C02") || !strcmp(PROP, "C11")) && (XC.npath == 0 || c->inj)) end_of_run_c02_clean(c, desc);
 	if (want_c16) {
 		/* end-to-end part: a re-delivered query may cost or repeat the packet in flight (a relay drops the second answer
 		 * to a query it has already answered; C01 allows loss and repeats), but the streams must not be left displaced:
@@ -786,7 +827,7 @@ static void run_cell(int job)
 	}
 	if (XC.npath == 0 && job < 6) xp_sample("%s: clean path delivered %d up / %d down of %d offered; upstream %s %d B/query, downstream fragsize %d, %ld+%ld datagrams", desc, up, down, WLS[c->wl].n,
 				       ca_w_dataenc_name(), up_chunk_cap, down_frag_cap, ns_ndgram_up, ns_ndgram_down);
-	else if (XC.npath == 1 && (XS->execs % 997) == 0) xp_sample("%s + deviation at choice point %d: %s -> %d up / %d down delivered, %d repeated", desc, XC.path[0].cp, want_c16 ? c16_desc : XC.path[0].alt < F_NFATES ? NS_FATE[XC.path[0].alt] : "?", up, down, rep);
+	else if (XC.npath == 1 && (XS->execs % 997) == 0) xp_sample("%s + deviation at choice point %d: %s -> %d up / %d down delivered, %d repeated", desc, XC.path[0].cp, want_c16 ? c16_desc : c->inj ? "timed tun arrivals" : XC.path[0].alt < F_NFATES ? NS_FATE[XC.path[0].alt] : "?", up, down, rep);
 	xp_leaf();
 }
 
@@ -829,6 +870,9 @@ int main(int argc, char **argv)
 		/* recovery after burst outages: pairwise subset (thorough: also at 30 ms latency) */
 		cells_pairwise(4, 0); if (thorough) cells_pairwise(4, 2);
 		PHASE(0);
+		/* tun arrivals timed against the client's datagrams: one pair per execution */
+		cells_inject();
+		PHASE(1);
 	} else {
 		cells_full(0, 0); PHASE(0);
 		cells_pairwise(0, 0); cells_pairwise(1, 2); PHASE(1);
